@@ -34,6 +34,9 @@ Check (C08_sem_subquery_rows : forall s e n rt cs lim o sq it r,
   /\ (In r (sem s (e ++ [(n, it)]) sq) \/ (r = [] /\ q_opt sq = true /\ sem s (e ++ [(n, it)]) sq = []))).
 Check (C08_sem_add : forall s a, exec_add s a (sem s [] (add_sub a)) = spec_add s a).
 Check (C08_sem_delete : forall s x sub, exec_delete s x sub (sem s [] sub) = spec_delete s x sub).
+Check (C08_collection_survivors : forall s rows victim x,
+  In x (coll_after s rows victim) <->
+  In x (outer_items rows) /\ item_live (match victim with Some v => rm_item s v | None => s end) x = true).
 Check (C08_route_resource : forall ops e tok r, res_by_id (run ops) tok = Some r ->
   level (run ops) e TAnn [CRes (RId tok) false] None = map IAnn (m_res_text (run ops) r)).
 Check (C08_machine_rows : forall s q, fine s [] q ->
@@ -74,6 +77,7 @@ Print Assumptions C08_sem_subquery.
 Print Assumptions C08_sem_subquery_rows.
 Print Assumptions C08_sem_add.
 Print Assumptions C08_sem_delete.
+Print Assumptions C08_collection_survivors.
 Print Assumptions Known_C08_position_witness.
 Print Assumptions Known_C08_indirect_witness.
 Print Assumptions Known_C08_optional_witness.
